@@ -59,7 +59,7 @@ def evalCore (P : Prims) (env : Env) : Core → Option RV
   | .method c _ name args => (evalCore P env c).bind fun x => (P.method name.name args x.v).map (⟨·, 0⟩)
   | .await c _ => evalCore P env c
   | .named c _ name => (evalCore P env c).bind fun x => (x.v.field (.ident name)).map (⟨·, 0⟩)
-  | .unnamed c _ i => (evalCore P env c).bind fun x => (x.v.field (.index i)).map (⟨·, 0⟩)
+  | .unnamed c _ _ i => (evalCore P env c).bind fun x => (x.v.field (.index i)).map (⟨·, 0⟩)
   | .index c _ e => (evalCore P env c).bind fun x => (P.index x.v e).map (⟨·, 0⟩)
 
 def evalV (P : Prims) (env : Env) (v : VExpr) : Option RV :=
